@@ -79,6 +79,7 @@ enum
     CL_ODD_SIZE,
     CL_RAW_CHECKED,
     CL_TIFF_CHECKED,
+    CL_RESTART_WITHOUT_SET,
 };
 
 const VhSpec kSpec = {
@@ -91,7 +92,7 @@ const VhSpec kSpec = {
       "zero_length_write", "multi_packet", "file_uri", "absolute_path", "metadata", "empty_metadata_after_nonempty", "set_rejected",
       "fault_fired", "fault_open", "fault_flock", "fault_pwrite", "fault_persistent", "device_used_after_fault", "failed_append_reported",
       "close_while_running", "close_without_start", "start_stop_without_frames", "f32_frames", "odd_image_size", "raw_file_compared",
-      "tiff_file_read_back", nullptr },
+      "tiff_file_read_back", "restart_without_set", nullptr },
     { "C14 non-trivial: a raw file was compared byte for byte AND (>=2 acquisitions on that device, or a short write inside a multi-frame packet)",
       "C15 non-trivial: a TIFF file was read back AND (N>=2 frames in >=2 packets, or >=2 start/stop cycles on one device, or tiff-json)",
       "C16 non-trivial: an injected fault fired and the device was used again afterwards, or close while running / without start with the "
@@ -138,6 +139,7 @@ struct Ctx
     std::string dir;           // scratch dir of this case
     bool fault_seen = false;   // a fault fired at some point on this device
     bool short_on = false;
+    bool restart_without_set = false;
 };
 
 Ctx* g = nullptr;
@@ -708,6 +710,22 @@ do_stop(Ctx& x)
     x.acq_on_device++;
     if (x.acq_on_device >= 2)
         x.c.cls(CL_TWO_ACQ_ONE_DEVICE);
+    if (x.restart_without_set) {
+        // The runtime restarts a stream without configuring it again (repeat-start).  The
+        // acquisition then goes to the same path: the harness moves the old file away first (the
+        // devices do not truncate, and the statement speaks about acquisitions to other paths),
+        // so the new file is fresh and must hold exactly the new frames.
+        Acq next;
+        next.path = x.acq.path;
+        next.meta = x.acq.meta;
+        next.meta_set = x.acq.meta_set;
+        rm_rf(x.acq.path);
+        x.acq = next;
+        x.configured = true;
+        x.c.cls(CL_RESTART_WITHOUT_SET);
+        x.c.trace("    (old output removed; the next start reuses the configuration)");
+        return;
+    }
     x.configured = false; // next acquisition needs a fresh path
     x.acq = Acq();
 }
@@ -853,7 +871,8 @@ vh_run(const VhTok* tape, size_t n, VhReport* rep)
                 }
                 if (x.c.ended)
                     break;
-                do_set(x, (t.a >> 3) & 3, t.d, (uint16_t)(t.d >> 5));
+                if (!x.configured)
+                    do_set(x, (t.a >> 3) & 3, t.d, (uint16_t)(t.d >> 5));
                 if (x.c.ended || !x.configured)
                     break;
                 do_start(x);
@@ -866,8 +885,11 @@ vh_run(const VhTok* tape, size_t n, VhReport* rep)
                     if ((t.b >> (3 + i)) & 1)
                         do_append(x);
                 }
-                if (!x.c.ended && x.acq.started)
+                if (!x.c.ended && x.acq.started) {
+                    x.restart_without_set = (t.b >> 13) == 1;
                     do_stop(x);
+                    x.restart_without_set = false;
+                }
                 break;
             }
             case K_OPEN:
@@ -895,7 +917,9 @@ vh_run(const VhTok* tape, size_t n, VhReport* rep)
                 do_append(x);
                 break;
             case K_STOP:
+                x.restart_without_set = (t.d & 3) == 1;
                 do_stop(x);
+                x.restart_without_set = false;
                 break;
             case K_CLOSE:
                 do_close(x);
